@@ -59,6 +59,66 @@ def run_replays(v, prop, scen):
     return obs, applied, nreq
 
 
+def run_c11_tables(v, tier, seed, rng):
+    """Advert.tla and Pex.tla: TLC-enumerated cases / edge walks on the real peer code."""
+    r = run_tlc("MCAdvert", "Advert_mc.cfg", workers=1, timeout=600)
+    require_ok(r, "Advert model checking")
+    v.add_tlc("Advert_mc.cfg", r)
+    cases = []
+    for p in sorted(set(r.lines("CASE"))):
+        c = json.loads(p)
+        c["kind"] = "advert"
+        cases.append(c)
+    os.unlink(r.outfile)
+    if len(cases) < 200:
+        raise Internal("Advert: only %d cases" % len(cases))
+    r = run_tlc("MCPex", "Pex_mc.cfg", workers=4, timeout=600)
+    require_ok(r, "Pex model checking")
+    v.add_tlc("Pex_mc.cfg", r)
+    r = run_tlc("MCPex", "Pex_edges.cfg", workers=1, timeout=600)
+    require_ok(r, "Pex edge dump")
+    from vlib import Graph
+    g = Graph.from_result(r, lambda s: not (s["pending"] or s["pendingDel"] or s["sent"] or s["told"] or s["present"]))
+    os.unlink(r.outfile)
+    walks, unc = g.covering_walks(rng, maxlen=14)
+    if unc or not g.inits:
+        raise Internal("Pex edge dump: %d edges unreachable" % unc)
+    walks += g.random_walks(rng, 300 if tier == "quick" else 5000, maxlen=30)
+    for w in walks:
+        sc = g.scenario(w, "")
+        cases.append({"kind": "pex", "steps": sc["steps"]})
+    for i, c in enumerate(cases):
+        c["id"] = i
+    vh = vlib.build_harness()
+    wd = vlib.scratch("c11x-")
+    sf, rf = os.path.join(wd, "cases.ndjson"), os.path.join(wd, "res.ndjson")
+    with open(sf, "w") as f:
+        for c in cases:
+            f.write(json.dumps(c, separators=(",", ":")) + "\n")
+    out, err = vlib.run_harness(vh, ["c11x", "-in", sf, "-out", rf, "-parallel", "12", "-timeout", "60"], timeout=3600)
+    log(out.strip())
+    kinds = {}
+    for line in open(rf):
+        res = json.loads(line)
+        c = cases[res["index"]]
+        if res.get("crash") or res.get("hang"):
+            v.violation("peer-crash", "the process crashed/hung on case %s: %s" % (json.dumps(c)[:200], res.get("stderr", "")[:300]), c)
+            continue
+        o = res["out"]
+        if o.get("note"):
+            raise Internal("case %s: %s" % (c["id"], o["note"]))
+        for vi in o.get("violations") or []:
+            v.violation(vi["key"], vi["what"], c)
+        for nc in o.get("nonconf") or []:
+            v.warn("nonconformance: " + nc)
+        kinds[c["kind"]] = kinds.get(c["kind"], 0) + 1
+        if c["kind"] == "advert" and c["id"] % 97 == 5:
+            v.sample({"advert": {"n": c["n"], "held": c["held"], "fast": c["fast"]}, "sent": o.get("observed")})
+    v.cov["c11_table_cases"] = kinds
+    v.cov["pex_edge_graph"] = {"states": len(g.states), "edges": g.nedges}
+    return len(cases)
+
+
 def run(prop, tier, seed, replay=None):
     v = Verdict(prop, tier, seed)
     v.assumptions = ["binding B2: the real handlers are stepped synchronously, the mailboxes between torrent and peers are consumed in the order "
@@ -76,6 +136,8 @@ def run(prop, tier, seed, replay=None):
         scen = gen_behaviours(v, tier, seed)
         for i, sc in enumerate(scen):
             sc["id"] = i
+    if replay and scen[0].get("kind") in ("advert", "pex"):
+        raise Internal("replay of advert/pex cases: run `harness/bin/vh c11x` on the scenario")
     obs, applied, nreq = run_replays(v, prop, scen)
     v.cov["evaluations"] = len(scen)
     v.cov["distinct_nontrivial"] = len({json.dumps(s["steps"], sort_keys=True) for s in scen})
@@ -102,4 +164,9 @@ def run(prop, tier, seed, replay=None):
         v.cov["states"] += r.distinct
         v.cov["transitions"] += r.generated
     v.cov["traces_validated_against_impl"] = len(scen)
+    if prop == "C11" and not replay:
+        n = run_c11_tables(v, tier, seed, random.Random(seed))
+        v.cov["traces_validated_against_impl"] += n
+        v.cov["evaluations"] += n
+        v.cov["distinct_nontrivial"] += n
     return v.finish()
